@@ -4,6 +4,7 @@
 package main
 
 import (
+	"bytes"
 	"context"
 	"fmt"
 	"io"
@@ -113,4 +114,195 @@ func botConnWriteFailure(c *vm.Ctx, r *vm.Rand) {
 		return
 	}
 	c.Cover("botconn.write-failure-surfaces")
+}
+
+// ---- the reading side: ReadPacket takes the frame from a queue that a reader goroutine fills. When the socket ends or
+// fails in the middle of a frame (or between two frames), every frame that arrived whole before that must come out
+// intact and the call after the last of them must report an error: nil there hands the caller a packet that never
+// arrived.
+
+// cutConn lets a connection's reads through until budget bytes (counted from the moment arm is called) have been
+// delivered; the Read that would cross the budget hands out the bytes up to it, and every later Read fails.
+type cutConn struct {
+	net.Conn
+	armed  atomic.Bool
+	budget atomic.Int64
+}
+
+func (f *cutConn) arm(budget int) {
+	f.budget.Store(int64(budget))
+	f.armed.Store(true)
+}
+
+func (f *cutConn) Read(p []byte) (int, error) {
+	if f.armed.Load() && f.budget.Load() <= 0 {
+		return 0, inject.ErrInjected
+	}
+	n, err := f.Conn.Read(p)
+	if f.armed.Load() {
+		left := f.budget.Load()
+		if int64(n) > left {
+			n = int(left)
+		}
+		f.budget.Store(left - int64(n))
+	}
+	return n, err
+}
+
+type cutDialer struct {
+	serve func(net.Conn)
+	cc    *cutConn
+}
+
+func (d *cutDialer) DialMCContext(ctx context.Context, addr string) (*mcnet.Conn, error) {
+	a, b := net.Pipe()
+	go d.serve(b)
+	d.cc = &cutConn{Conn: a}
+	return mcnet.WrapConn(d.cc), nil
+}
+
+func botConnReadFailure(c *vm.Ctx, r *vm.Rand) {
+	channelQueue := r.Bool()
+	whole := r.Intn(5) // frames that arrive completely
+	ends := r.Bool()   // the stream ends (the peer closes) / the socket's Read fails
+	type frame struct {
+		id   int32
+		data []byte
+	}
+	frames := make([]frame, whole+1)
+	var wire [][]byte
+	for i := range frames {
+		frames[i] = frame{int32(r.Intn(200)), r.Bytes([]int{0, 1, 8, 100, 300}[r.Intn(5)])}
+		var b bytes.Buffer
+		p := pk.Packet{ID: frames[i].id, Data: frames[i].data}
+		p.Pack(&b, -1)
+		wire = append(wire, b.Bytes())
+	}
+	last := wire[whole]
+	cutAt := r.Intn(len(last)) // bytes of the frame after the whole ones that still arrive: 0 (between two frames) .. all but one
+	switch r.Intn(4) {
+	case 0:
+		cutAt = 0
+	case 1:
+		cutAt = len(last) - 1
+	}
+	start := make(chan struct{})
+	serve := func(raw net.Conn) {
+		defer raw.Close()
+		conn := mcnet.WrapConn(raw)
+		var p pk.Packet
+		if conn.ReadPacket(&p) != nil || conn.ReadPacket(&p) != nil {
+			return
+		}
+		conn.WritePacket(pk.Marshal(packetid.ClientboundLoginGameProfile, pk.UUID{1}, pk.String("bot"), pk.VarInt(0), pk.Boolean(true)))
+		if conn.ReadPacket(&p) != nil {
+			return
+		}
+		conn.WritePacket(pk.Marshal(packetid.ClientboundConfigFinishConfiguration))
+		go io.Copy(io.Discard, raw) // whatever the bot still says (the pipe is synchronous: unread bytes would block it)
+		<-start
+		for i := 0; i < whole; i++ {
+			if _, err := raw.Write(wire[i]); err != nil {
+				return
+			}
+		}
+		if ends {
+			raw.Write(last[:cutAt]) // and the connection is closed
+			return
+		}
+		raw.Write(last) // the client's socket fails cutAt bytes into it; the rest is never taken
+	}
+	d := &cutDialer{serve: serve}
+	cl := bot.NewClient()
+	opts := bot.JoinOptions{MCDialer: d}
+	if channelQueue {
+		opts.QueueRead = queue.NewChannelQueue[pk.Packet](64)
+		opts.QueueWrite = queue.NewChannelQueue[pk.Packet](4096)
+	}
+	sizes := make([]int, len(frames))
+	for i, f := range frames {
+		sizes[i] = len(f.data)
+	}
+	how := "the socket's Read fails"
+	if ends {
+		how = "the peer closes the connection"
+	}
+	wit := func() any {
+		return map[string]any{"channel_queue": channelQueue, "whole_frames_before": whole, "frame_data_sizes": sizes, "bytes_of_the_next_frame_that_arrive": cutAt, "its_length_on_the_wire": len(last), "failure": how}
+	}
+	var joinErr error
+	if c.Guard("botconn-read/join", wit, func() { joinErr = cl.JoinServerWithOptions("cut.test:25565", opts) }) {
+		close(start)
+		return
+	}
+	c.Eval(vm.HashStr("botconn-read", fmt.Sprint(channelQueue, whole, ends, cutAt, sizes)), true)
+	if joinErr != nil {
+		close(start)
+		c.Violation("botconn-read/join-failed", "join over a healthy in-memory connection failed: "+joinErr.Error(), wit())
+		return
+	}
+	defer cl.Close()
+	if !ends {
+		total := cutAt
+		for i := 0; i < whole; i++ {
+			total += len(wire[i])
+		}
+		d.cc.arm(total)
+	}
+	close(start)
+	type outcome struct {
+		got  []frame
+		errs []error
+	}
+	done := make(chan outcome, 1)
+	go func() {
+		var o outcome
+		c.Guard("botconn-read/read", wit, func() {
+			for i := 0; i <= whole; i++ {
+				var p pk.Packet
+				err := cl.Conn.ReadPacket(&p)
+				o.errs = append(o.errs, err)
+				o.got = append(o.got, frame{p.ID, append([]byte{}, p.Data...)})
+				if err != nil {
+					break
+				}
+			}
+		})
+		done <- o
+	}()
+	var o outcome
+	select {
+	case o = <-done:
+	case <-time.After(30 * time.Second):
+		c.Inconclusive("C09 botconn-read: ReadPacket did not return within 30 s after the connection had failed")
+		return
+	}
+	for i := 0; i < whole; i++ {
+		if i >= len(o.errs) {
+			return // a panic was reported by Guard
+		}
+		if o.errs[i] != nil {
+			c.Violation("botconn-read/whole-frame-lost", fmt.Sprintf("frame %d of %d arrived completely before the connection failed, ReadPacket returned: %v", i, whole, o.errs[i]), wit())
+			return
+		}
+		if o.got[i].id != frames[i].id || !bytes.Equal(o.got[i].data, frames[i].data) {
+			c.Violation("botconn-read/whole-frame-altered", fmt.Sprintf("frame %d arrived as id %d / %d bytes, sent id %d / %d bytes", i, o.got[i].id, len(o.got[i].data), frames[i].id, len(frames[i].data)), wit())
+			return
+		}
+	}
+	if len(o.errs) <= whole {
+		return
+	}
+	if o.errs[whole] == nil {
+		c.Violation("botconn-read/read-failure-swallowed", fmt.Sprintf("%s %d bytes into a frame of %d; ReadPacket returned nil with id %d / %d bytes of data", how, cutAt, len(last), o.got[whole].id, len(o.got[whole].data)), wit())
+		return
+	}
+	if ends {
+		c.Cover("botconn.read-failure-surfaces.stream-ends")
+	} else {
+		c.Cover("botconn.read-failure-surfaces.read-error")
+	}
+	if cutAt == 0 {
+		c.Cover("botconn.read-failure-surfaces.between-frames")
+	}
 }
